@@ -139,12 +139,77 @@ macro_rules! none_vs_zero {
     }};
 }
 
+
+/// single-channel version: process_partial_into_buffer(Some(x[..l])) vs zero-padded input
+macro_rules! partial1 {
+    ($nd:ident, $a:ident, $b:ident, $T:ty, $MI:expr, $MO:expr) => {{
+        let n = $b.input_frames_next();
+        $crate::fit!($nd, n <= $MI && n >= 2, "C16.demand_fits_scenario_bound[base]");
+        let l0 = $nd.usize_in(1, $MI);
+        $nd.assume(l0 < n);
+        let mut x0 = [0.0 as $T; $MI];
+        fill_line(&mut x0[..], 0);
+        let mut p0 = [0.0 as $T; $MI];
+        unroll32!(i, $MI, { if i < l0 { p0[i] = x0[i]; } });
+        let sent = SENT as $T;
+        let mut oa = [sent; $MO];
+        let mut ob = [sent; $MO];
+        let ra = $a.process_partial_into_buffer(Some(&[&x0[..l0]]), &mut [&mut oa[..]], None);
+        let rb = $b.process_into_buffer(&[&p0[..n]], &mut [&mut ob[..]], None);
+        match (ra, rb) {
+            (Ok(ca), Ok(cb)) => {
+                check!(ca == cb, "C16.partial_counts[base]");
+                let mut same = true;
+                unroll32!(i, $MO, { if oa[i].to_bits() != ob[i].to_bits() { same = false; } });
+                check!(same, "C16.partial_values[base]");
+                cover!(ca.1 > 0 && l0 == 1, "shortest partial length compared");
+            }
+            _ => { check!(false, "C16.partial_result[base]"); }
+        }
+    }};
+}
+
+/// two channels with CONCRETE different partial lengths (and a masked empty channel): the padding
+/// must be per channel
+macro_rules! partial2_concrete {
+    ($nd:ident, $a:ident, $b:ident, $T:ty, $MI:expr, $MO:expr, $l0:expr, $l1:expr, $m1:expr) => {{
+        let n = $b.input_frames_next();
+        $crate::fit!($nd, n <= $MI && n > $l0 && n > $l1, "C16.demand_fits_scenario_bound[base]");
+        let mut x0 = [0.0 as $T; $MI];
+        let mut x1 = [0.0 as $T; $MI];
+        fill_line(&mut x0[..], 0);
+        fill_line(&mut x1[..], 300);
+        let mut p0 = [0.0 as $T; $MI];
+        let mut p1 = [0.0 as $T; $MI];
+        unroll32!(i, $MI, { if i < $l0 { p0[i] = x0[i]; } if i < $l1 { p1[i] = x1[i]; } });
+        let mb = [true, $m1];
+        let sent = SENT as $T;
+        let mut oa0 = [sent; $MO];
+        let mut oa1 = [sent; $MO];
+        let mut ob0 = [sent; $MO];
+        let mut ob1 = [sent; $MO];
+        let ra = $a.process_partial_into_buffer(Some(&[&x0[..$l0], &x1[..$l1]]), &mut [&mut oa0[..], &mut oa1[..]], Some(&mb[..]));
+        let rb = $b.process_into_buffer(&[&p0[..n], &p1[..n]], &mut [&mut ob0[..], &mut ob1[..]], Some(&mb[..]));
+        match (ra, rb) {
+            (Ok(ca), Ok(cb)) => {
+                check!(ca == cb, "C16.partial_counts[base]");
+                let mut same = true;
+                unroll32!(i, $MO, {
+                    if oa0[i].to_bits() != ob0[i].to_bits() || oa1[i].to_bits() != ob1[i].to_bits() { same = false; }
+                });
+                check!(same, "C16.partial_values[base]");
+            }
+            _ => { check!(false, "C16.partial_result[base]"); }
+        }
+    }};
+}
+
 harnesses! {
     // ---------------------------------------------------------------- process() == core call
     #[kani::unwind(10)]
     fn c16_process_ffo(nd) {
-        let mut a = FastFixedOut::<f64>::new(1.0, 2.0, PolynomialDegree::Linear, 2, 2).unwrap();
-        let mut b = FastFixedOut::<f64>::new(1.0, 2.0, PolynomialDegree::Linear, 2, 2).unwrap();
+        let mut a = FastFixedOut::<f64>::new(1.0, 2.0, PolynomialDegree::Nearest, 2, 2).unwrap();
+        let mut b = FastFixedOut::<f64>::new(1.0, 2.0, PolynomialDegree::Nearest, 2, 2).unwrap();
         process_vs_core!(nd, a, b, f64, 8, 2);
         forget(a); forget(b);
     }
@@ -170,14 +235,14 @@ harnesses! {
 
     // ---------------------------------------------------------------- partial == zero padding
     #[kani::unwind(10)]
-    fn c16_partial_ffo(nd) {
+    fn c16_partial_ffo_2ch_sym(nd) {
         let mut a = FastFixedOut::<f64>::new(1.0, 2.0, PolynomialDegree::Linear, 2, 2).unwrap();
         let mut b = FastFixedOut::<f64>::new(1.0, 2.0, PolynomialDegree::Linear, 2, 2).unwrap();
         partial_vs_padded!(nd, a, b, f64, 6, 2);
         forget(a); forget(b);
     }
     #[kani::unwind(14)]
-    fn c16_partial_sfi(nd) {
+    fn c16_partial_sfi_2ch_sym(nd) {
         let mut a = SincFixedIn::<f64>::new_with_interpolator(1.0, 1.0, SincInterpolationType::Nearest, probe::boxed64(2, 1), 6, 2).unwrap();
         let mut b = SincFixedIn::<f64>::new_with_interpolator(1.0, 1.0, SincInterpolationType::Nearest, probe::boxed64(2, 1), 6, 2).unwrap();
         partial_vs_padded!(nd, a, b, f64, 6, 16);
@@ -188,10 +253,42 @@ harnesses! {
     #[kani::stub(realfft::RealFftPlanner::<f64>::plan_fft_forward, crate::stubs::plan_fwd)]
     #[kani::stub(realfft::RealFftPlanner::<f64>::plan_fft_inverse, crate::stubs::plan_inv)]
     #[kani::stub(rubato::sinc::make_sincs, crate::stubs::make_sincs_unit)]
-    fn c16_partial_fto(nd) {
+    fn c16_partial_fto_2ch_sym(nd) {
         let mut a = FftFixedOut::<f64>::new(2, 3, 3, 1, 2).unwrap();
         let mut b = FftFixedOut::<f64>::new(2, 3, 3, 1, 2).unwrap();
         partial_vs_padded!(nd, a, b, f64, 2, 3);
+        forget(a); forget(b);
+    }
+
+    // ---------------------------------------------------------------- quick: light partial harnesses
+    #[kani::unwind(10)]
+    fn c16_partial_ffo(nd) {
+        let mut a = FastFixedOut::<f64>::new(1.0, 2.0, PolynomialDegree::Nearest, 2, 1).unwrap();
+        let mut b = FastFixedOut::<f64>::new(1.0, 2.0, PolynomialDegree::Nearest, 2, 1).unwrap();
+        partial1!(nd, a, b, f64, 6, 2);
+        forget(a); forget(b);
+    }
+    #[kani::unwind(10)]
+    fn c16_partial_ffo_2ch(nd) {
+        // different concrete lengths per channel
+        let mut a = FastFixedOut::<f64>::new(1.0, 2.0, PolynomialDegree::Nearest, 2, 2).unwrap();
+        let mut b = FastFixedOut::<f64>::new(1.0, 2.0, PolynomialDegree::Nearest, 2, 2).unwrap();
+        partial2_concrete!(nd, a, b, f64, 6, 2, 5, 2, true);
+        forget(a); forget(b);
+    }
+    #[kani::unwind(10)]
+    fn c16_partial_ffo_2ch_masked_empty(nd) {
+        // the masked channel is passed empty: the active channel must still be padded from ITS length
+        let mut a = FastFixedOut::<f64>::new(1.0, 2.0, PolynomialDegree::Nearest, 2, 2).unwrap();
+        let mut b = FastFixedOut::<f64>::new(1.0, 2.0, PolynomialDegree::Nearest, 2, 2).unwrap();
+        partial2_concrete!(nd, a, b, f64, 6, 2, 5, 0, false);
+        forget(a); forget(b);
+    }
+    #[kani::unwind(14)]
+    fn c16_partial_sfi(nd) {
+        let mut a = SincFixedIn::<f64>::new_with_interpolator(1.0, 1.0, SincInterpolationType::Nearest, probe::boxed64(2, 1), 6, 1).unwrap();
+        let mut b = SincFixedIn::<f64>::new_with_interpolator(1.0, 1.0, SincInterpolationType::Nearest, probe::boxed64(2, 1), 6, 1).unwrap();
+        partial1!(nd, a, b, f64, 6, 16);
         forget(a); forget(b);
     }
 
@@ -257,12 +354,12 @@ harnesses! {
         forget(a); forget(b);
     }
 
-    // vacuity witness (must FAIL)
+    // vacuity witness (must FAIL): twin with a different chunk size
     #[kani::unwind(10)]
     fn c16_witness(nd) {
-        let mut a = FastFixedOut::<f64>::new(1.0, 2.0, PolynomialDegree::Linear, 2, 2).unwrap();
-        let mut b = FastFixedOut::<f64>::new(1.0, 2.0, PolynomialDegree::Nearest, 2, 2).unwrap();
-        partial_vs_padded!(nd, a, b, f64, 6, 2);
+        let mut a = FastFixedOut::<f64>::new(1.0, 2.0, PolynomialDegree::Nearest, 2, 1).unwrap();
+        let mut b = FastFixedOut::<f64>::new(0.5, 2.0, PolynomialDegree::Nearest, 2, 1).unwrap();
+        check!(a.input_frames_next() == b.input_frames_next(), "WITNESS.c16[base]");
         forget(a); forget(b);
     }
 }
